@@ -55,48 +55,106 @@ class Fact(object):
 
 
 class NameCanon(object):
-    """alpha-renaming of one function: parameters become p0, p1, ... by position and locals v0, v1, ... by order of
-    declaration, so that the keys of the ledger do not change when a variable is renamed"""
+    """renaming that makes ledger keys independent of how variables are called and of unrelated declarations: parameters
+    become p0, p1, ... by position; a local pointer is named after the call that allocates it (ptr<dset_compress>); a local
+    fixed-size array after its type (arr<int[10]>); every other local is numbered a0, a1, ... in order of first appearance
+    *within the key itself* (array, access text, dominating conditions)"""
 
     def __init__(self, func):
-        self.map = {}
+        self.static = {}
+        self.locals = set()
         for i, p in enumerate(func.params):
-            self.map[p.name] = "p%d" % i
-        n = 0
-        for st in swalk(func.body):
-            if st.k == "decl" and st.var.name not in self.map:
-                self.map[st.var.name] = "v%d" % n
-                n += 1
+            self.static[p.name] = "p%d" % i
+        decls = [st for st in swalk(func.body) if st.k == "decl"]
+        src_of = {}
+        for st, e in cfront.all_exprs(func.body):
+            for x in ewalk(e):
+                if x.k == "asg" and x.op == "=" and x.a[0].k == "var" and "*" in (x.a[0].ty or ""):
+                    r = x.a[1]
+                    while r.k == "cast":
+                        r = r.a[0]
+                    if r.k == "call":
+                        src_of.setdefault(x.a[0].name, r.name)
+        for st in decls:
+            if st.init is not None and "*" in (st.var.ty or ""):
+                r = st.init
+                while r.k == "cast":
+                    r = r.a[0]
+                if r.k == "call":
+                    src_of.setdefault(st.var.name, r.name)
+        used = collections.Counter()
+        for st in decls:
+            n = st.var.name
+            if n in self.static:
+                continue
+            ty = st.var.ty or ""
+            if n in src_of:
+                tag = "ptr<%s>" % src_of[n]
+            elif "[" in ty and "*" not in ty:
+                tag = "arr<%s>" % norm_text(ty)
+            else:
+                self.locals.add(n)
+                continue
+            used[tag] += 1
+            self.static[n] = tag if used[tag] == 1 else "%s#%d" % (tag, used[tag])
         self._re = re.compile(r"\b[A-Za-z_]\w*\b")
 
+    def parts(self, texts):
+        """rename the identifiers of a list of texts consistently -> list of renamed, blank-free texts"""
+        dyn = {}
+
+        def sub(m):
+            w = m.group(0)
+            if w in self.static:
+                return self.static[w]
+            if w in self.locals:
+                if w not in dyn:
+                    dyn[w] = "a%d" % len(dyn)
+                return dyn[w]
+            return w
+        return [norm_text(self._re.sub(sub, t or "")) for t in texts]
+
     def text(self, t):
-        if not t:
-            return ""
-        return self._re.sub(lambda m: self.map.get(m.group(0), m.group(0)), t)
+        return self.parts([t])[0]
 
 
 class Acc(object):
     __slots__ = ("arr", "var", "idx", "text", "rw", "line", "ranges", "facts", "stmt", "length", "kind", "func", "callee", "cparam",
-                 "canon")
+                 "canon", "_parts")
 
-    def _c(self, t):
+    def canon_parts(self):
+        """(array, access, [all dominating conditions]) renamed consistently (see NameCanon)"""
+        got = getattr(self, "_parts", None)
+        if got is not None:
+            return got
+        conds = []
+        for f in self.facts:
+            if f.origin == "cond" and f.text and f.text not in conds:
+                conds.append(f.text)
         c = getattr(self, "canon", None)
-        return norm_text(c(t) if c is not None else t)
+        if c is None:
+            out = [norm_text(t) for t in [self.arr, self.text] + conds]
+        else:
+            out = c.parts([self.arr, self.text] + conds)
+        self._parts = (out[0], out[1], sorted(set(out[2:])))
+        return self._parts
 
     def plain_key(self):
         """human-readable key with the source's own names: function|array|access (used by the reason table)"""
         return "%s|%s|%s" % (self.func, self.arr, norm_text(self.text))
 
     def key(self):
-        """alpha-renamed key (function, array, access text)"""
-        return (self.func, self._c(self.arr), self._c(self.text))
-
-    def key4(self):
-        """site key: (function, array, access text, statement text), alpha-renamed and blank-free"""
-        return (self.func, self._c(self.arr), self._c(self.text), self._c(self.stmt))
+        """renamed key (function, array, access text)"""
+        p = self.canon_parts()
+        return (self.func, p[0], p[1])
 
     def cond_texts(self):
-        return sorted(set(self._c(f.text) for f in self.facts if f.origin == "cond" and f.text))
+        return list(self.canon_parts()[2])
+
+    def relevant_conds(self):
+        """dominating conditions that mention a variable of the access expression (renamed texts)"""
+        ids = set(re.findall(r"[A-Za-z_][\w<>#]*", self.canon_parts()[1]))
+        return [t for t in self.cond_texts() if ids & set(re.findall(r"[A-Za-z_][\w<>#]*", t))]
 
     def show_key(self):
         return "%s|%s|%s" % (self.func, self.arr, norm_text(self.text))
@@ -375,7 +433,7 @@ class BWalk(omp.Region):
     def _leaf_one(self, x, env, ctx, stmt, rw):
         v, idx = self.flat_index(x, env)
         a = Acc()
-        a.canon = self.canon.text
+        a.canon = self.canon
         a.func = self.func.name
         a.var = v
         a.arr = v.name if v is not None else "?"
@@ -449,8 +507,10 @@ class BWalk(omp.Region):
                 env[s.var.name] = f if f is not None else omp.unk(s.var.name)
                 if "*" in (s.var.ty or ""):
                     self.bind_pointer(s.var.name, s.init, env)
+                    self.bind_alias(s.var.name, s.var.ty, s.init, env)
             else:
                 env[s.var.name] = omp.unk(s.var.name)
+                env.pop(("ptr", s.var.name), None)
             return ctx
         if k == "expr":
             self.rec(s.e, env, ctx, s)
@@ -1245,21 +1305,38 @@ class Ledger(object):
         return None, "no extent known for '%s'" % name
 
     def in_table(self, a):
-        """-> (reason | None, site key used).  Discovery mode (sites None): the human-readable reason table decides by plain
-        key; check mode: only the frozen, alpha-renamed sites do."""
+        """-> (reason | None, site id used).  Discovery mode (sites None): the human-readable reason table decides by plain
+        key.  Check mode: a frozen site (function, array, access; alpha-renamed) is matched when every dominating condition
+        that was recorded for it also dominates this access (more or stronger guards are fine, the statement text is free)."""
         if self.sites is None:
             k3 = a.plain_key()
             if k3 not in self.table:
                 return None, None
-            return self.table[k3], a.key4()
-        k4 = a.key4()
-        for q in a.cond_texts():
-            kq = k4 + (q,)
-            if kq in self.sites:
-                return self.sites[kq]["why"], kq
-        if k4 in self.sites:
-            return self.sites[k4]["why"], k4
+            return self.table[k3], a.key()
+        k3 = a.key()
+        have = set(a.cond_texts())
+        best = None
+        for sid, row in self.sites.items():
+            if sid[:3] != k3:
+                continue
+            need = set(sid[3])
+            if need <= have and (best is None or len(need) > len(best[0][3])):
+                best = (sid, row)
+        if best is not None:
+            return best[1]["why"], best[0]
         return None, None
+
+    def confirmed_guarded_site(self, a):
+        """is there a confirmed precondition site for this access whose own recorded conditions mention the access' variables?
+        (then a differently guarded occurrence is a reworded site: cannot decide; otherwise a guard that constrains the index
+        without implying the bound is a defect of that guard)"""
+        if self.sites is None:
+            return a.plain_key() in self.table
+        ids = set(re.findall(r"[A-Za-z_][\w<>#]*", a.canon_parts()[1]))
+        for sid in self.sites:
+            if sid[:3] == a.key() and any(ids & set(re.findall(r"[A-Za-z_][\w<>#]*", t)) for t in sid[3]):
+                return True
+        return False
 
     def row_elsewhere(self, a):
         """is there a confirmed precondition row for this (function, array, access) at another statement?"""
@@ -1309,7 +1386,7 @@ class Ledger(object):
         dd = atoms_datadep_noiv(a.idx)
         if dd:
             guarded = [f for f in facts if f.origin == "cond" and any(x in f.p.atoms() for x in dd)]
-            if guarded:
+            if guarded and not self.confirmed_guarded_site(a):
                 row["cls"] = "VIOLATION"
                 row["why"] = "the dominating condition(s) %s constrain this input-dependent index but do not imply %s" % (
                     sorted(set(f.text for f in guarded))[:3], " and ".join(side))
@@ -1422,7 +1499,7 @@ class Ledger(object):
             # callee's documented domain
             for pn, lb in (info.get("domain") or {}).items():
                 a = Acc()
-                a.canon = self.walk.canon.text
+                a.canon = self.walk.canon
                 a.func, a.arr, a.var, a.text, a.rw, a.line = self.func.name, "(domain)", None, "%s(... %s ...)" % (call.name, pn), "r", call.line
                 a.ranges, a.facts, a.stmt, a.length, a.kind, a.callee, a.cparam = ranges, facts, estr(call), Poly.const(1), "domain", call.name, pn
                 a.idx = None
@@ -1449,7 +1526,7 @@ class Ledger(object):
                     arg = arg.a[0]
                 if (call.name, pn) in self.trusted or (arg.k == "un" and arg.op == "&" and arg.a[0].k == "var"):
                     a = Acc()
-                    a.canon = self.walk.canon.text
+                    a.canon = self.walk.canon
                     a.func, a.var, a.arr = self.func.name, v, (v.name if v is not None else "?")
                     a.text = "%s(%s) as %s" % (call.name, estr(call.a[i]), pn)
                     a.rw, a.line, a.ranges, a.facts = "r", call.line, ranges, facts
@@ -1467,7 +1544,7 @@ class Ledger(object):
                     reqs = [(None, "?")]
                 for q, qtext in reqs:
                     a = Acc()
-                    a.canon = self.walk.canon.text
+                    a.canon = self.walk.canon
                     a.func, a.var = self.func.name, v
                     a.arr = v.name if v is not None else "?"
                     a.text = "%s(%s) needs %s" % (call.name, estr(call.a[i]), qtext)
